@@ -123,6 +123,13 @@ var clsName = map[recvClass]string{recvAuthor: "author", recvState: "target(stat
 // permGate: call of AclPermissions.<pred> on a receiver of class cls must equal want.
 func (e *aclEnv) permGate(fn *ssa.Function, cls recvClass, pred string, want bool) Gate {
 	name := fmt.Sprintf("%s.%s()==%v", clsName[cls], pred, want)
+	g := e.permGateMatch(fn, cls, pred, want, name)
+	// inside a helper the "author" is the helper's own author-identity parameter
+	g.For = func(h *ssa.Function) Gate { return e.permGateMatch(h, cls, pred, want, name) }
+	return g
+}
+
+func (e *aclEnv) permGateMatch(fn *ssa.Function, cls recvClass, pred string, want bool, name string) Gate {
 	return GCmp(name, func(a Atom) (bool, bool) {
 		if a.Op != token.ILLEGAL {
 			return false, false
